@@ -10,6 +10,31 @@ import lib_vault as LV
 MINCOLL = 1000
 
 
+def ledger_moves_inconsistent(reals, scs):
+    """on the REAL swap: the fee ledgers do not move by exactly what the response reports / burns (evaluated on real outputs, for
+    counterexamples found with the kernel stubbed)."""
+    import base64, json as _json
+    real = reals[0]['result']; sc = scs[0]
+    if real.get('outcome') != 'ok': return False
+    at = {a['key']: a['value'] for a in real['response'].get('attributes', [])}
+    try: prot = int(at['protocol_fee_amount']); burn = int(at['burn_fee_amount'])
+    except Exception: return False
+    before = {bytes.fromhex(k).decode('latin1'): v for k, v in sc['storage']}
+    after = {bytes.fromhex(k).decode('latin1'): v for k, v in reals[0]['storage_after']}
+    def delta(ns): return [int(x['amount']) - int(y['amount']) for x, y in zip(after[ns], before[ns])]
+    burned_msgs = 0
+    for m in real['response']['messages']:
+        b = m['msg'].get('bank', {}).get('burn')
+        if b: burned_msgs += sum(int(c['amount']) for c in b['amount'])
+        ex = m['msg'].get('wasm', {}).get('execute')
+        if ex:
+            inner = ex['msg']
+            if isinstance(inner, str): inner = _json.loads(base64.b64decode(inner))
+            if 'burn' in inner: burned_msgs += int(inner['burn']['amount'])
+    z = [0] * (len(before['collected_protocol_fees']) - 1)
+    return sorted(delta('collected_protocol_fees')) != sorted(z + [prot]) or sorted(delta('all_time_collected_protocol_fees')) != sorted(z + [prot]) or sorted(delta('all_time_burned_fees')) != sorted(z + [burn]) or burned_msgs != burn
+
+
 def pair_swap(ck, prog, cfg, oi):
     """bookkeeping of a swap against the amounts compute_swap reports (compute_swap itself: C02 / C03)."""
     kinds = KIND_CFGS[cfg]; ai = 1 - oi
@@ -30,10 +55,14 @@ def pair_swap(ck, prog, cfg, oi):
         eff = effects(resp_of(p), PAIR); A = aname(kinds, ai)
         nf = ledger_after(p, 'collected_protocol_fees'); nat = ledger_after(p, 'all_time_collected_protocol_fees'); nab = ledger_after(p, 'all_time_burned_fees')
         sfx = '%s.o%d' % (cfg, oi)
-        ck.oblige('C07.pair.swap.ledger.' + sfx, p, z3.Or(nf[ai] != f[ai] + prot, nf[oi] != f[oi]), 'pending ledger += protocol fee on the ask asset only')
+        nice = [z3.Int('b0') == 10 ** 12 + (10 ** 9 if oi == 0 else 0), z3.Int('b1') == 10 ** 12 + (10 ** 9 if oi == 1 else 0), z3.Int('f0') == 10 ** 6, z3.Int('f1') == 10 ** 6, z3.Int('offer') == 10 ** 9,
+                z3.Int('fee_protocol') == 10 ** 15, z3.Int('fee_swap') == 2 * 10 ** 15, z3.Int('fee_burn') == 10 ** 15, z3.Int('max_spread') == 5 * 10 ** 17, z3.Int('S') == 10 ** 12] + \
+               [z3.Int(n) == 7 * 10 ** 6 for n in ('at0', 'at1', 'ab0', 'ab1')]
+        kw = dict(native_pred=ledger_moves_inconsistent, nice=nice)
+        ck.oblige('C07.pair.swap.ledger.' + sfx, p, z3.Or(nf[ai] != f[ai] + prot, nf[oi] != f[oi]), 'pending ledger += protocol fee on the ask asset only', **kw)
         ck.oblige('C07.pair.swap.alltime.' + sfx, p, z3.Or(nat[ai] != at[ai] + prot, nat[oi] != at[oi], nab[ai] != ab[ai] + burn, nab[oi] != ab[oi]),
-                  'all-time collected/burned counters grow by exactly the charge / burn')
-        ck.oblige('C07.pair.swap.burn.' + sfx, p, total(eff, 'burn', A) != burn, 'the burn message destroys exactly the burn fee of the ask asset')
+                  'all-time collected/burned counters grow by exactly the charge / burn', **kw)
+        ck.oblige('C07.pair.swap.burn.' + sfx, p, total(eff, 'burn', A) != burn, 'the burn message destroys exactly the burn fee of the ask asset', **kw)
         ck.oblige('C07.pair.swap.transfer.' + sfx, p, z3.Or(total(eff, 'send', A) != ret, len([e for e in eff if e.kind not in ('send', 'burn')]) != 0,
                                                            any(not same(e.asset, A) for e in eff)), 'nothing else moves: one transfer of the net return, one burn')
     ck.require(n >= 1, 'pair swap (stubbed kernel): no Ok path')
